@@ -138,6 +138,9 @@ func VerifBinaryEncode() {
 		vassume(pos[j] < n)
 		vec[pos[j]] = nondetFloat32()
 		vassume(vec[pos[j]] == vec[pos[j]])
+		// the threshold of that dimension is arbitrary as well (learned thresholds differ per dimension, may be negative)
+		bq.threshold[pos[j]] = nondetFloat32()
+		vassume(bq.threshold[pos[j]] == bq.threshold[pos[j]])
 	}
 	enc := bq.encode(vec)
 	vcover("reached")
@@ -150,7 +153,7 @@ func VerifBinaryEncode() {
 		var want uint64
 		for b := 0; b < 64; b++ {
 			i := w*64 + b
-			if i < n && vec[i] > th {
+			if i < n && vec[i] > bq.threshold[i] {
 				want |= 1 << uint(b)
 			}
 		}
